@@ -2371,6 +2371,13 @@ class ColFn(ColExpr):
         if filters := self.context_kwargs.get("filter"):
             if len(self.args) == 0:
                 assert self.op == ops.count_star
+                # COUNT(*) of the rows where the filter holds = number of non-null values
+                # of `CASE WHEN <filter> THEN 1 END`
+                self.op = ops.count
+                self.args = [
+                    CaseExpr([(functools.reduce(operator.and_, (cond for cond in filters)), LiteralCol(1))])
+                ]
+                del self.context_kwargs["filter"]
             else:
                 self.args[0] = CaseExpr(
                     [
